@@ -68,6 +68,42 @@ func writeWith(w *wl.Workload, k wl.Config, mo mc.MapOrder) ([]byte, error) {
 	return buf.Bytes(), nil
 }
 
+// sharedOptions reports whether one *WriterOptions value may be handed to several live writers: a
+// caller-supplied compressor is a single stateful object, sharing it is the caller's decision.
+func sharedOptions(k wl.Config) bool {
+	return k.Compression == "" || k.Compression == "zstd" || k.Compression == "lz4"
+}
+
+// writeInterleaved runs the same calls on n writers created from ONE options value, alternating between them.
+func writeInterleaved(w *wl.Workload, opts *mcap.WriterOptions, n int) ([][]byte, error) {
+	bufs := make([]*bytes.Buffer, n)
+	ws := make([]*mcap.Writer, n)
+	for i := range ws {
+		bufs[i] = &bytes.Buffer{}
+		mw, err := mcap.NewWriter(bufs[i], opts)
+		if err != nil {
+			return nil, err
+		}
+		ws[i] = mw
+	}
+	calls := make([][]mc.Call, n)
+	for i := range calls {
+		calls[i] = mc.Calls(w, nil, nil)
+	}
+	for j := range calls[0] {
+		for i := range ws {
+			if err := calls[i][j].Do(ws[i]); err != nil {
+				return nil, fmt.Errorf("writer %d, %s: %w", i, calls[i][j].Name, err)
+			}
+		}
+	}
+	out := make([][]byte, n)
+	for i := range bufs {
+		out[i] = bufs[i].Bytes()
+	}
+	return out, nil
+}
+
 func maxKeys(w *wl.Workload) int {
 	m := 0
 	for _, o := range w.Ops {
@@ -111,6 +147,37 @@ func checkC13(c C13Case, st *stats.Collector) error {
 			if sha256.Sum256(out) != h {
 				return pk.Failf("nondeterministic", "output differs under GOMAXPROCS=%d (first difference at byte %d)", n, firstDiff(out, ref))
 			}
+		}
+	}
+	if sharedOptions(c.K) {
+		// other writers alive at the same time, created from the very same options value
+		opts := mc.Options(c.K)
+		outs, err := writeInterleaved(&c.W, opts, 2)
+		evals += 2
+		if err != nil {
+			return pk.Failf("write-error", "two writers created from one options value, calls interleaved: %v", err)
+		}
+		for i, out := range outs {
+			if sha256.Sum256(out) != h {
+				return pk.Failf("nondeterministic", "writer %d of two created from one *WriterOptions (calls interleaved) produced different bytes than a writer used alone (%d vs %d bytes, first difference at %d)", i, len(out), len(ref), firstDiff(out, ref))
+			}
+		}
+		// and the options value is still good for a writer created after those two
+		var buf bytes.Buffer
+		mw, err := mcap.NewWriter(&buf, opts)
+		if err == nil {
+			for _, cl := range mc.Calls(&c.W, nil, nil) {
+				if err = cl.Do(mw); err != nil {
+					break
+				}
+			}
+		}
+		evals++
+		if err != nil {
+			return pk.Failf("write-error", "third writer from the same options value: %v", err)
+		}
+		if sha256.Sum256(buf.Bytes()) != h {
+			return pk.Failf("nondeterministic", "a writer created from an options value that two earlier writers had used produced different bytes (first difference at %d)", firstDiff(buf.Bytes(), ref))
 		}
 	}
 	mk := maxKeys(&c.W)
@@ -222,9 +289,50 @@ func checkC13Batch(b C13Batch, st *stats.Collector) error {
 			}
 		}(i)
 	}
+	// four more goroutines write case 0's calls through writers created from ONE options value
+	var sharedErrs [4]error
+	if sharedOptions(b.Cases[0].K) {
+		opts := mc.Options(b.Cases[0].K)
+		for g := 0; g < 4; g++ {
+			wg.Add(1)
+			go func(g int) {
+				defer wg.Done()
+				defer func() {
+					if x := recover(); x != nil {
+						sharedErrs[g] = pk.Failf("panic", "goroutine sharing an options value: %v", x)
+					}
+				}()
+				<-start
+				for rep := 0; rep < 3; rep++ {
+					var buf bytes.Buffer
+					mw, err := mcap.NewWriter(&buf, opts)
+					if err == nil {
+						for _, cl := range mc.Calls(&b.Cases[0].W, nil, nil) {
+							if err = cl.Do(mw); err != nil {
+								break
+							}
+						}
+					}
+					if err != nil {
+						sharedErrs[g] = pk.Failf("write-error", "goroutine sharing an options value: %v", err)
+						return
+					}
+					if sha256.Sum256(buf.Bytes()) != refs[0] {
+						sharedErrs[g] = pk.Failf("nondeterministic-concurrent", "a writer created from a *WriterOptions value that three other goroutines use for their writers at the same time produced different bytes than the sequential reference")
+						return
+					}
+				}
+			}(g)
+		}
+	}
 	close(start)
 	wg.Wait()
 	for _, e := range errs {
+		if e != nil {
+			return e
+		}
+	}
+	for _, e := range sharedErrs {
 		if e != nil {
 			return e
 		}
